@@ -1,7 +1,180 @@
 import Driver.Proto
-/- driver commands of area `eval` (stub until the area is built) -/
-namespace Driver.Eval
+import MesonModel.Eval.Model
+/-
+Driver commands of area `eval` (C01).
 
-def handle (cmd : String) (fs : List String) : String := "bad-op"
+`run <program>`: `<program>` is the prefix encoding of the tree the real parser produced (written by
+`harness/c01_impl.py: serialise`): blank-separated tokens,
+  nodes  := <count> node*           str := <len> codepoint*
+  args   := <orderErr 0|1> nodes <nkw> (node node)*
+  node   := S ln str | F ln str | B ln 0|1 | N ln int | I ln str | A ln args | D ln <n> (node node)*
+          | and ln node node | or ln node node | not ln node | neg ln node | ar ln op node node
+          | cmp ln op node node | idx ln node node | tern ln node node node | par ln node
+          | asg ln str node | pasg ln str node | call ln str args | meth ln node str args
+          | if ln <n> (node nodes)* <hasElse> nodes | for ln <n> str* node nodes | cont ln | brk ln | unk ln
+Answer: `OK|name=value;…|messages|tags` or `ERR:<class>:<line>|messages|tags` (values in the canonical
+syntax of `harness/c01_impl.py: canon`).
+-/
+namespace Driver.Eval
+open MesonModel.Eval Driver
+
+abbrev P := StateT (List String) Option
+
+def tok : P String := fun ts => match ts with | t :: r => some (t, r) | [] => none
+def nat : P Nat := do let t ← tok; match t.toNat? with | some n => pure n | none => failure
+def int : P Int := do let t ← tok; match t.toInt? with | some n => pure n | none => failure
+
+def rep {α} (p : P α) : Nat → P (List α)
+  | 0 => pure []
+  | n + 1 => do let a ← p; let r ← rep p n; pure (a :: r)
+
+def str : P Str := do
+  let n ← nat
+  let cs ← rep nat n
+  pure (cs.map Char.ofNat)
+
+def arithOf : String → Option ArithOp
+  | "add" => some .add | "sub" => some .sub | "mul" => some .mul | "div" => some .div | "mod" => some .mod
+  | _ => none
+
+def cmpOf : String → Option CmpOp
+  | "eq" => some .eq | "ne" => some .ne | "lt" => some .lt | "le" => some .le | "gt" => some .gt
+  | "ge" => some .ge | "in" => some .in_ | "notin" => some .notin | _ => none
+
+mutual
+partial def node : P Node := do
+  let t ← tok
+  let ln ← nat
+  match t with
+  | "S" => do let s ← str; pure (.str ln s)
+  | "F" => do let s ← str; pure (.fstr ln s)
+  | "B" => do let b ← nat; pure (.bool ln (b != 0))
+  | "N" => do let i ← int; pure (.num ln i)
+  | "I" => do let s ← str; pure (.id ln s)
+  | "A" => do let (oe, pos, kw) ← args; pure (.arr ln pos kw oe)
+  | "D" => do let n ← nat; let kw ← rep pair n; pure (.dict ln kw)
+  | "and" => do let l ← node; let r ← node; pure (.and_ ln l r)
+  | "or" => do let l ← node; let r ← node; pure (.or_ ln l r)
+  | "not" => do let v ← node; pure (.not_ ln v)
+  | "neg" => do let v ← node; pure (.uminus ln v)
+  | "ar" => do
+    let o ← tok
+    match arithOf o with
+    | some op => do let l ← node; let r ← node; pure (.arith ln op l r)
+    | none => failure
+  | "cmp" => do
+    let o ← tok
+    match cmpOf o with
+    | some op => do let l ← node; let r ← node; pure (.cmp ln op l r)
+    | none => failure
+  | "idx" => do let o ← node; let i ← node; pure (.index ln o i)
+  | "tern" => do let c ← node; let a ← node; let b ← node; pure (.tern ln c a b)
+  | "par" => do let i ← node; pure (.paren ln i)
+  | "asg" => do let n ← str; let v ← node; pure (.assign ln n v)
+  | "pasg" => do let n ← str; let v ← node; pure (.plusassign ln n v)
+  | "call" => do let f ← str; let (oe, pos, kw) ← args; pure (.call ln f pos kw oe)
+  | "meth" => do let o ← node; let m ← str; let (oe, pos, kw) ← args; pure (.method ln o m pos kw oe)
+  | "if" => do
+    let n ← nat
+    let ifs ← rep (do let c ← node; let b ← nodes; pure (c, b)) n
+    let he ← nat
+    let els ← nodes
+    pure (.ifc ln ifs (he != 0) els)
+  | "for" => do
+    let n ← nat
+    let vs ← rep str n
+    let it ← node
+    let b ← nodes
+    pure (.foreach ln vs it b)
+  | "cont" => pure (.cont ln)
+  | "brk" => pure (.brk ln)
+  | "unk" => pure (.unknown ln)
+  | _ => failure
+partial def nodes : P (List Node) := do let n ← nat; rep node n
+partial def pair : P (Node × Node) := do let k ← node; let v ← node; pure (k, v)
+partial def args : P (Bool × List Node × List (Node × Node)) := do
+  let oe ← nat
+  let pos ← nodes
+  let n ← nat
+  let kw ← rep pair n
+  pure (oe != 0, pos, kw)
+end
+
+def parseProgram (f : String) : Option (List Node) :=
+  match nodes ((f.splitOn " ").filter (fun w => !w.isEmpty)) with
+  | some (p, []) => some p
+  | _ => none
+
+/-! ### canonical output -/
+
+def showStr (s : Str) : String := "s" ++ ".".intercalate (s.map (fun c => toString c.toNat))
+
+partial def showVal : Val → String
+  | .int i => "i" ++ toString i
+  | .bool b => if b then "t" else "f"
+  | .str s => showStr s
+  | .arr l => "[" ++ ",".intercalate (l.map showVal) ++ "]"
+  | .dict d => "{" ++ ",".intercalate (d.map (fun e => showStr e.1 ++ ":" ++ showVal e.2)) ++ "}"
+  | .range a b c => s!"r{a}.{b}.{c}"
+
+def tyName : Ty → String
+  | .int => "int" | .bool => "bool" | .str => "str" | .arr => "array" | .dict => "dict" | .range => "range"
+
+def errName : ErrK → String
+  | .invalidArguments => "InvalidArguments" | .invalidCode => "InvalidCode"
+  | .interpreterException => "InterpreterException" | .mesonException => "MesonException"
+  | .pyTypeError => "TypeError" | .breakRequest => "BreakRequest" | .continueRequest => "ContinueRequest"
+  | .unsupported => "UNSUPPORTED"
+
+def opName : Op → String
+  | .plus => "+" | .minus => "-" | .times => "*" | .div => "/" | .mod => "%" | .uminus => "uminus"
+  | .not_ => "not" | .bool => "bool()" | .equals => "==" | .notEquals => "!=" | .greater => ">"
+  | .less => "<" | .greaterEquals => ">=" | .lessEquals => "<=" | .in_ => "in" | .notIn => "not-in"
+  | .index => "[]"
+
+def resName : Option ErrK → String
+  | none => "ok"
+  | some e => errName e
+
+def showTag : Tag → String
+  | .bin l op r pa res => s!"op:{tyName l}{if pa then "+=" else opName op}{tyName r}:{resName res}"
+  | .unary op t res => s!"un:{opName op}:{tyName t}:{resName res}"
+  | .method t n res => s!"m:{tyName t}.{String.ofList n}:{resName res}"
+  | .func n => s!"f:{String.ofList n}"
+  | .foreach t res => s!"foreach:{match t with | some t => tyName t | none => "void"}:{resName res}"
+  | .expandKwargs res => s!"expand_kwargs:{resName res}"
+  | .note n => String.ofList n
+
+def insertSortedS (x : String) : List String → List String
+  | [] => [x]
+  | y :: r => if x < y then x :: y :: r else if x == y then y :: r else y :: insertSortedS x r
+
+def showTags (l : List Tag) : String :=
+  ",".intercalate ((l.map showTag).foldl (fun acc t => insertSortedS t acc) [])
+
+def showVars (vs : List (Str × Val)) : String :=
+  let items := vs.map (fun e => (String.ofList e.1, showVal e.2))
+  let sorted := items.foldl (fun acc t =>
+    let rec ins : List (String × String) → List (String × String)
+      | [] => [t]
+      | y :: r => if t.1 < y.1 then t :: y :: r else y :: ins r
+    ins acc) []
+  ";".intercalate (sorted.map (fun e => e.1 ++ "=" ++ e.2))
+
+def showMsgs (l : List Str) : String := ",".intercalate (l.map showStr)
+
+def showRes (r : Res Unit) : String :=
+  match r with
+  | .ok _ s => s!"OK|{showVars s.vars}|{showMsgs s.out}|{showTags s.cov}"
+  | .err e s => s!"ERR:{errName e}:{s.line}|{showMsgs s.out}|{showTags s.cov}"
+  | .sig b s => s!"ERR:{if b then "BreakRequest" else "ContinueRequest"}:0|{showMsgs s.out}|{showTags s.cov}"
+
+def handle (cmd : String) (fs : List String) : String :=
+  match cmd, fs with
+  | "run", [p] =>
+    match parseProgram p with
+    | some prog => showRes (runProgram prog)
+    | none => "bad-program"
+  | _, _ => "bad-op"
 
 end Driver.Eval
